@@ -122,6 +122,10 @@ class Check:
         """Re-execute one recorded case; return violation dicts (signature, what, case)."""
         raise NotImplementedError
 
+    def shard_timeout(self, tier: str) -> int:
+        """Watchdog (seconds) for one shard; exceeding it is a harness error, not a verdict."""
+        return 900 if tier == "quick" else 6 * 3600
+
     def bounds(self, tier: str) -> dict[str, Any]:
         """Human readable statement of the bound completed by this tier."""
         return {}
